@@ -434,8 +434,9 @@ def execute_in(sb, sc):
             if tgt is None:
                 raise ValueError("init target outside the model: %r" % o_s)
             try:
-                json.loads(open(os.path.join(world, *tgt), encoding="utf-8").read())
-                parses = True
+                # save_to_tauri_config accepts a JSON object whose plugins member, if present, is an object
+                doc = json.loads(open(os.path.join(world, *tgt), encoding="utf-8").read())
+                parses = isinstance(doc, dict) and isinstance(doc.get("plugins", {}), dict)
             except (OSError, ValueError):
                 parses = False
             init_info = (proj, gen, lib, tgt, parses)
